@@ -112,7 +112,11 @@ def prop (c : Case) : Option String × List String := Id.run do
   if singular then return (none, ["singular"])
   -- warning clause
   let some rcond := decR1 c "rcond" | return (some "rcond is not finite", [])
-  let some epsM := decR1 c "eps" | return (some "eps", [])
+  let some epsLib := decR1 c "eps" | return (some "eps", [])
+  -- machine epsilon is the relative machine precision of the arithmetic at hand (2^-53 / 2^-24: what [sd]mach("E")
+  -- is documented to return), not whatever the library's own constant routine says
+  let epsM : Rat := if c.isDouble then 1 / (2 : Rat) ^ 53 else 1 / (2 : Rat) ^ 24
+  if epsLib ≠ epsM then return (some s!"mach('E') returns {epsLib}, the relative machine precision is {epsM}", [])
   if info ≠ warnInfo rcond epsM n then return (some s!"info = {info} but rcond {if rcond < epsM then "<" else ">="} eps", [])
   if rcond < 0 then return (some "rcond negative", [])
   -- one-sided bounds
